@@ -147,7 +147,9 @@ fn record(r: &ShellResult) -> Recorded {
                 }
                 table.insert(pid, (ppid, st, ch));
             }
-            "sink" => {}
+            // what a probe built-in saw of its data is C14's business; EPIPE of a
+            // writer shows in its exit status
+            "sink" | "emit_error" | "sink_error" => {}
             other => {
                 if let Some(b) = batches.last_mut() {
                     b.odd.push(format!("event {other}: {e}"));
